@@ -34,6 +34,7 @@ import (
 
 	clicmd "github.com/ajitpratap0/GoSQLX/cmd/gosqlx/cmd"
 	"github.com/ajitpratap0/GoSQLX/pkg/gosqlx"
+	"github.com/ajitpratap0/GoSQLX/pkg/metrics"
 	"github.com/ajitpratap0/GoSQLX/pkg/models"
 	textscan "github.com/ajitpratap0/GoSQLX/pkg/security"
 	"github.com/ajitpratap0/GoSQLX/pkg/sql/ast"
@@ -278,6 +279,7 @@ var rawOps = map[string]bool{"ops.tokenize": true, "ops.parse": true, "ops.scan"
 
 func child(workFile string, shard, shards, from int, out string) {
 	debug.SetMaxStack(1 << 30)
+
 	run = core.NewRun("C01", os.Getenv("VERIF_TIER"), "model_checking")
 	f, err := os.Open(workFile)
 	if err != nil {
@@ -299,6 +301,13 @@ func child(workFile string, shard, shards, from int, out string) {
 			core.Fatalf("bad work item %d: %v", idx, err)
 		}
 		it.Text = string(it.Raw)
+		// every second item of a child runs with metrics collection switched on (the documented production set-up):
+		// recording a call is part of the call
+		if (idx/shards)%2 == 1 {
+			metrics.Enable()
+		} else {
+			metrics.Disable()
+		}
 		list := tops
 		if it.Kind == "slice" {
 			list = sops
@@ -754,6 +763,18 @@ func build(tier string) []item {
 	// shapes named by the property and long chains
 	for _, s := range []string{"SELECT INTERVAL 3", "SELECT INTERVAL", "SELECT CAST(", "SELECT a FROM t WHERE a BETWEEN", "SELECT CASE", "SELECT a[", "SELECT ARRAY[", "INSERT INTO t VALUES (", "WITH", "WITH c AS", "SELECT * FROM t JOIN", "SELECT a FROM t ORDER BY", "SELECT a FROM t FETCH FIRST", "SELECT f(", "SELECT f(a) OVER (", "SELECT a FROM t WINDOW w AS (", "MERGE INTO t USING", "CREATE TABLE t (", "ALTER TABLE t ADD", "SELECT a::", "SELECT a ->", "SELECT EXISTS (", "SELECT a IN (", "", " ", ";", ";;;", "\n", "\t"} {
 		add(item{Kind: "text", Text: s, Origin: "named-shape"})
+	}
+	// long runs before a lexical or grammatical problem: where columns and byte offsets drift apart (a tab counts as
+	// several columns, a multi-byte character as one), any code that slices the text with a column - or reports a column
+	// from an offset - meets its boundary cases only on long lines
+	for _, filler := range []string{"\t", "\t\t\t a,", "é", "日本", " ", "\r", "/**/", "𝔘"} {
+		for _, n := range []int{30, 100, 400} {
+			run := strings.Repeat(filler, n)
+			for _, tail := range []string{"'unterminated", "^", "/* open", "'bad \\q'", "12e", "\"open", "FROM FROM", ")", "$tag$ open", ""} {
+				add(item{Kind: "text", Text: "SELECT a, " + run + " b " + tail, Origin: "long-run-before-problem"})
+				add(item{Kind: "text", Text: "SELECT '" + run + "' " + tail, Origin: "long-run-before-problem"})
+			}
+		}
 	}
 	n := 20000
 	if tier == "thorough" {
